@@ -76,11 +76,11 @@ func VerifC14History(size, forkAt, requests, faults, restart, firstValid int) {
 		}
 		var old, n int64
 		var proofKind, sigKind int
-		branch := verifChoice("branch", 2)
+		branch := verifConcretize(verifChoice("branch", 2))
 		if r == 0 && firstValid == 1 {
 			// a valid first request that brings the witness to a symbolic size on a symbolic branch
 			old = 0
-			n = int64(1 + verifChoice("new", size))
+			n = int64(1 + verifConcretize(verifChoice("new", size)))
 		} else {
 			// old size: the recorded size, one more, or zero; new size: no progress, one more, or the whole log
 			switch verifChoice("old", 3) {
@@ -102,8 +102,8 @@ func VerifC14History(size, forkAt, requests, faults, restart, firstValid int) {
 			if old > int64(size) || n > int64(size) || n < 0 {
 				verifAssume(false)
 			}
-			proofKind = verifChoice("proof", 3)
-			sigKind = verifChoice("sig", 3)
+			proofKind = verifConcretize(verifChoice("proof", 3))
+			sigKind = verifConcretize(verifChoice("sig", 3))
 		}
 		req := f.request(old, branch, n, proofKind, sigKind)
 		before := len(w.lockHist[key])
